@@ -49,6 +49,13 @@ def asRTUErrorPacket (s : Slice) : PRes (Option PErr) :=
     .ok (some (.excR unit (f - 128) code))
   else .ok none
 
+/-- `AsRTUErrorPacketWithCRC`: the recogniser the RTU clients use while reading - only a 5 byte packet
+whose CRC matches is an exception reply -/
+def asRTUErrorPacketWithCRC (s : Slice) : PRes (Option PErr) :=
+  if s.vis.length ≠ 5 then .ok none else
+  if !crcMatches s.vis then .ok none else
+  asRTUErrorPacket s
+
 /-! ## stream classifier (packet.go) -/
 
 def supportedFunctionCodes : List UInt8 := [1, 2, 3, 4, 5, 6, 15, 16, 17, 23]
